@@ -170,6 +170,21 @@ func c11Oracle(d *diffRig, bs int, olds [][]byte, nw []byte, ops []sop) (string,
 	if !bytes.Equal(buf.Bytes(), nw) {
 		return "roundtrip-applier", fmt.Sprintf("ApplySingle replay gives %d bytes, want %d", buf.Len(), len(nw))
 	}
+	// and so must the channel-fed applier (ApplyPatch), here on the same context right after the replay above
+	if (len(nw)+len(ops))%4 == 0 {
+		var buf2 bytes.Buffer
+		ch := make(chan wsync.Operation, len(ops))
+		for _, o := range ops {
+			ch <- wsync.Operation{Type: o.typ, FileIndex: o.f, BlockIndex: o.i, BlockSpan: o.span, Data: o.data}
+		}
+		close(ch)
+		if err := actx.ApplyPatch(&buf2, pool, ch); err != nil {
+			return "apply-error", "ApplyPatch: " + err.Error()
+		}
+		if !bytes.Equal(buf2.Bytes(), nw) {
+			return "roundtrip-applier", fmt.Sprintf("ApplyPatch replay gives %d bytes, want %d", buf2.Len(), len(nw))
+		}
+	}
 	return "", ""
 }
 
